@@ -160,7 +160,22 @@ pub trait OperandHandler {
                 ident_provider,
                 ident_kind,
             );
+        } else if is_literal_or_literal_concat(operand) {
+            // a constant addition ('a' + 'b') is not instrumented: it stays in place but it is still
+            // an operand of the enclosing operation
+            arguments.push(ExprOrSpread::from(operand.clone()))
         }
+    }
+}
+
+pub fn is_literal_or_literal_concat(expr: &Expr) -> bool {
+    match expr {
+        Expr::Lit(_) => true,
+        Expr::Bin(binary) if binary.op == BinaryOp::Add => {
+            is_literal_or_literal_concat(&binary.left)
+                && is_literal_or_literal_concat(&binary.right)
+        }
+        _ => false,
     }
 }
 
